@@ -1,11 +1,11 @@
 SETUP_CMD = "true"
 HOOKS = dict(guard="LHASA_VERIF", enable="harnesses are compiled by goto-cc with -DLHASA_VERIF from a scratch copy of /repo/lib and /repo/src",
-             baseline_off_cmd="make -C /repo check", source_commits=["136a89f60784139c9867484ef2cdc9ac67acc2e9"], add_only=True)
+             baseline_off_cmd="make -C /repo check", source_commits=["136a89f60784139c9867484ef2cdc9ac67acc2e9", "8d62620462c06f1bf766b8060b02de181d084656"], add_only=True)
 ENGINES = [dict(name="cbmc", path="/verif/bin/check", serves_properties=[],
                 kind_free_text="python driver: copies /repo sources, goto-cc + cbmc 6.11 per harness, replays counterexamples natively (gcc+ASan/UBSan)")]
 NOTES = "See DESIGN.md. All verdicts are bounded (unwinding assertions on); bounds are listed per harness in the evidence files."
 NOT_APPLICABLE = {}
 
 # properties whose checks are registered in MANIFEST.json (quick tier passes on the unchanged tree, calibrated with margin)
-CLAIMED = ["C03", "C05", "C07", "C11", "C12", "C13", "C14", "C17"]
+CLAIMED = ["C03", "C05", "C07", "C08", "C11", "C12", "C13", "C14", "C15", "C16", "C17", "C20"]
 UNDER_CONSTRUCTION = "solver-based check under construction in this session (harnesses not yet calibrated); not claimed until its quick tier passes reliably"
